@@ -31,4 +31,12 @@ for n, S in sorted(vars(et).items()):
                                      'ref': oc.set_type if (oc is not None and isinstance(getattr(oc, 'set_type', None), str)) else None,
                                      'class': type(a).__name__, 'units_settable': bool(getattr(a, '_units_settable', True))})
     out[S.set_type] = ent
+# the enumerations of the standard the writer relies on: name -> number (and the struct format of the fixed-size codes)
+from dliswriter.utils.internal import internal_enums as ie     # noqa: E402
+enums = {}
+for en in ('RepresentationCode', 'EFLRType', 'IFLRType'):
+    E = getattr(ie, en, None)
+    if E is not None:
+        enums[en] = {m.name: [int(m.value), (m.converter.format if getattr(m, 'converter', None) is not None else None)] for m in E}
+out['__enums__'] = enums
 print(json.dumps(out))
